@@ -202,6 +202,15 @@ def main(argv=None):
         cs = [c for c in canaries if c.func == f["function"]]
         if not cs or all(c.status == "unsat" for c in cs):
             vacuous.append(f["function"])
+    # ... and a function with a normal postcondition must be able to return
+    # (otherwise its `ensures` are proved of nothing); a code change that makes
+    # it unable to return leaves the property undecided, not violated
+    for f in funcs:
+        if (f.get("status") == "under contract" and f.get("has_ensures")
+                and f.get("exits", {}).get("normal", 1) == 0
+                and f["function"] not in vacuous):
+            undecided.append((f["function"], "no feasible normal exit under "
+                              "the contracts (postconditions unexercised)"))
     verified_funcs = [f for f in funcs if f.get("status") == "under contract"]
 
     # ---- concrete stage ----------------------------------------------------
